@@ -352,8 +352,9 @@ class HistogramND(HistogramBase):
                 bin_map = binning.force_bin_existence(value_array[i])
                 self._reshape_data(binning.bin_count, bin_map, i)
         ixbin = self.find_bin(value_array, **kwargs)
-        if ixbin is None and self.keep_missed:
-            self._missed += weight
+        if ixbin is None:
+            if self.keep_missed:
+                self._missed += weight
         else:
             self._frequencies[ixbin] += weight
             self._errors2[ixbin] += weight**2
